@@ -331,6 +331,13 @@ pub fn run_ins(cache: AnyCache, ins: &Ins, out: &mut Vec<String>, masked: bool) 
             let ptr = run_ctx(|c| c.caches.get(1 + *k).copied()).expect("scenario registered no other cache");
             let other = unsafe { &*(ptr as *const assets_manager::AssetCache<SimSource>) }.as_any_cache();
             let _ = other.raw_source().read(id, ext);
+            // directories of the other cache as well (seeded change C14-i): the root, the two directories of the
+            // generated trees, the parent of the id and the id itself asked as a directory
+            let parent = id.rsplit_once('.').map(|(p, _)| p).unwrap_or("");
+            for d in ["", "d", "d.e", parent, id.as_str()] {
+                let _ = other.raw_source().read_dir(d, &mut |_| {});
+            }
+            detsim::count("reach.other_cache_read_dir");
             // assets of the other cache too: an asset key of another cache must not become a dependency here, even
             // when this cache holds an asset with the same id and type
             if ext == "a" {
